@@ -1,3 +1,4 @@
+import OrbitModel.Model.Store
 import OrbitModel.Proofs.History
 /-!
 # C07 — document store = last-writer-wins replay, including batch puts
@@ -59,5 +60,18 @@ theorem get_returns_exactly_matching (idx : KV) (key : String) (ci pm : Bool) (k
       (if pm then (if ci then lowerAscii key else key).toList <:+: (if ci then lowerAscii k else k).toList
        else (if ci then lowerAscii k else k) = (if ci then lowerAscii key else key)) :=
   docGetKeys_spec idx key ci pm k
+
+/-- **the documents are the replay of what the log lists — whatever the log listed before** (after the
+`fix:` commit, finding F45: the index is rebuilt into a fresh map; `index_step` needed "the listing
+only grows", which a `Load` with a limit on a live store breaks) -/
+theorem documents_are_the_replay_of_the_listing (idx : KV) (L : Log) (hwf : DocWF (values L)) :
+    KV.equiv (updateIndex .doc idx L) (docReplay (values L)) :=
+  doc_inv_step [] [] (values L) hwf (KV.equiv_refl _) (fun _ h => by cases h)
+
+/-- Refutation witness for the index as it was: the document of an entry the log no longer lists
+stayed; now it goes (corpus/C07/f45) -/
+theorem trimmed_document_stayed_visible_before_the_fix :
+    KV.get (updateIndex0 .doc [("Doc-b", "x")] (Log.empty 1)) "Doc-b" = some "x" ∧
+    KV.get (updateIndex .doc [("Doc-b", "x")] (Log.empty 1)) "Doc-b" = none := by decide
 
 end Orbit.C07
